@@ -1155,6 +1155,34 @@ def c14_13(ck, prog):
             continue
         n += 1
 
+        # where the allocation's result is stored straight into a field, the test of that field is the test of the
+        # allocation
+        holder = {}
+        for b, i, ev in fn.events():
+            for lhs, how, rhs in written_lvalues(ev):
+                x = rhs
+                while isinstance(x, dict) and x.get('k') in ('paren', 'cast'):
+                    x = x['e']
+                if how == '=' and isinstance(x, dict) and x.get('k') == 'call' and x.get('id') in allocs \
+                        and lhs.get('k') == 'member':
+                    holder[estr(lhs)] = x['id']
+
+        def akey(atom, resolve, holder=holder):
+            e = atom[1] if atom[0] == 'truthy' else atom[2] if atom[0] == 'cmp' and is_int(atom[3], 0) else None
+            if e is not None and isinstance(e, dict) and e.get('k') == 'member' and estr(e) in holder:
+                return ('allocres', holder[estr(e)], atom[0])
+            return None
+
+        def failed(ctx, aid):
+            if ctx.result_known(aid) is False:
+                return True
+            for k, v in ctx.atoms().items():
+                if k[0] == 'allocres' and k[1] == aid:
+                    # truthy(field) False, or (field == 0) True
+                    if (k[2] == 'truthy' and v is False) or (k[2] == 'cmp' and v is True):
+                        return True
+            return False
+
         def on_event(user, ev, ctx, allocs=allocs):
             dirty, snaps = user
             if ev['ev'] == 'call' and ev['e'].get('id') in allocs:
@@ -1173,13 +1201,13 @@ def c14_13(ck, prog):
         def on_exit(user, ctx, ret, ev, fn=fn):
             dirty, snaps = user
             for aid, fields in snaps:
-                if fields and ctx.result_known(aid) is False:
+                if fields and failed(ctx, aid):
                     ctx.report('%s returns after its allocation failed with %s still changed' % (
                         fn.name, ', '.join(sorted(fields))), ev['line'] if ev else fn.line,
                         key=('half-grown', tuple(sorted(fields))))
         try:
             ex = Explorer(fn, init=(frozenset(), frozenset()), on_event=on_event, on_exit=on_exit, calls=GROW_ALLOCATORS,
-                          track='auto', cap=300000).run()
+                          atom_key=akey, track='auto', cap=300000).run()
         except AnalysisBroken:
             r.note('%s: too many paths; no verdict' % fn.name)
             continue
